@@ -1,6 +1,7 @@
 package main
 
 import (
+	"unicode/utf8"
 	"bytes"
 	"encoding/json"
 	"fmt"
@@ -105,7 +106,13 @@ func c07Gen(c *Ctx, r *gen.Rng, i int) c07In {
 		return c07Deep(r, ds[r.Intn(len(ds))])
 	case 6: // long tokens
 		n := []int{1000, 65536, 100000, 1000000}[r.Intn(4)]
-		switch r.Intn(5) {
+		switch r.Intn(7) {
+		case 6:
+			// a long run of UTF-8 continuation bytes next to an error (inside and outside a string)
+			run := strings.Repeat(string([]byte{0x80 + byte(r.Intn(64))}), n)
+			return c07In{fmt.Sprintf("%d continuation bytes around a syntax error", n), []string{`{"a":"` + run + `" x}`, `[1,` + run + `]`, `{"a":1 ` + run, `"` + run + `\q"`}[r.Intn(4)]}
+		case 5:
+			return c07In{fmt.Sprintf("object with a key of %d bytes", n), `{"` + strings.Repeat("k", n) + `":1,"a":2}`}
 		case 0:
 			return c07In{fmt.Sprintf("string of %d escapes", n), `"` + strings.Repeat(`é\n`, n/8) + `"`}
 		case 1:
@@ -159,6 +166,10 @@ func c07Err(c *Ctx, i int, api string, in *c07In, err error) {
 	}
 	if len(msg) > c07MaxMsg {
 		bad("error message is not bounded: it grows with the input", nil)
+	}
+	if e, ok := err.(*json.UnsupportedValueError); ok && (e.Str == "" || !utf8.ValidString(e.Str)) {
+		// (the decoder's nesting-limit error is a pre-built value: its fields must be those of that value)
+		bad("an UnsupportedValueError without a description (the error value is not the one that was built)", map[string]interface{}{"str": q(e.Str)})
 	}
 	pos, hasPos := 0, false
 	// the source the error refers to: the input, or the corrected copy that ValidateString decodes
@@ -288,6 +299,15 @@ func c07Decode(c *Ctx, i int, in *c07In, r *gen.Rng) {
 		cfg := cfgs[(i+k)%len(cfgs)]
 		call("Unmarshal("+t.String()+")", func() error { return cfg.UnmarshalFromString(s, reflect.New(t).Interface()) })
 	}
+	call("decoder.Decoder+DisallowUnknownFields", func() error {
+		d := decoder.NewDecoder(s)
+		d.DisallowUnknownFields()
+		var v struct {
+			A interface{} `json:"a"`
+			B struct{ X int }
+		}
+		return d.Decode(&v)
+	})
 	call("decoder.Skip", func() error { decoder.Skip(data); return nil })
 	call("decoder.Decoder x2", func() error {
 		d := decoder.NewDecoder(s)
@@ -319,6 +339,9 @@ func c07Decode(c *Ctx, i int, in *c07In, r *gen.Rng) {
 			for k := 0; ; k++ {
 				var v interface{}
 				if err := d.Decode(&v); err != nil {
+					// the other methods of a decoder that has stopped must stay callable
+					_ = d.Buffered()
+					_ = d.More()
 					if err == io.EOF {
 						return nil
 					}
@@ -396,6 +419,11 @@ func c07Decode(c *Ctx, i int, in *c07In, r *gen.Rng) {
 			encoder.Quote(s)
 			unquote.String(s)
 			encoder.HTMLEscape(nil, data)
+			// a destination that is already long (and has little spare room)
+			pre := make([]byte, 70000, 70000+(i%3)*40)
+			if out := encoder.HTMLEscape(pre, data); len(out) < len(pre) {
+				c.Violate(i, "encoder.HTMLEscape", "result shorter than its destination prefix", map[string]interface{}{"input": in.desc})
+			}
 			sutf8.ValidateString(s)
 			sutf8.CorrectWith(nil, data, "?")
 			return nil
@@ -421,8 +449,24 @@ type c07BadMarshaler struct{ out string }
 func (m c07BadMarshaler) MarshalJSON() ([]byte, error) { return []byte(m.out), nil }
 
 // c07Values: cyclic, extremely deep and otherwise hostile Go values for the encoder.
+// self-referential pointer types: a cycle that consists of pointers only
+type c07P *c07P
+type c07PA *c07PB
+type c07PB *c07PA
+
 func c07Values(c *Ctx, r *gen.Rng) (string, interface{}, bool) {
-	switch r.Intn(9) {
+	switch r.Intn(10) {
+	case 9:
+		if r.Bool() {
+			var p c07P
+			p = c07P(&p)
+			return "cycle of pointers only (type P *P; p = &p)", p, true
+		}
+		var a c07PA
+		var b c07PB
+		a = c07PA(&b)
+		b = c07PB(&a)
+		return "cycle of pointers only through two pointer types", a, true
 	case 0:
 		n := &c07Node{V: 1}
 		n.Next = n
